@@ -618,6 +618,38 @@ impl CliCtx {
     }
 }
 
+impl CliCtx {
+    /// `copia sync SRC DST` (single file, local) while the destination's file system refuses bytes beyond a limit (`ulimit -f`,
+    /// SIGXFSZ ignored: the refused write returns EFBIG — a quota, a full disk). Exit 0 means the destination IS the source; a
+    /// failure leaves the old destination (seed C01-O: the patched output went through a `BufWriter` handed by value to the
+    /// synchronous `patch`, which never flushes: the last buffer-full was written by `Drop`, whose error nobody sees).
+    pub fn sync_under_write_limit(&self, w: &mut Out) {
+        if self.hangs.get() >= 2 { return; }
+        let f = |n: &str| self.dir.join(n).to_string_lossy().into_owned();
+        for (basis_len, extra, limit_kib) in [(100 * 1024usize, 5000usize, 102u32), (40 * 1024, 0, 16), (300 * 1024, 7, 128), (9000, 300, 8)] {
+            let basis: Vec<u8> = (0..basis_len).map(|i| ((i * 7) % 251) as u8).collect();
+            let mut src = basis.clone();
+            if extra > 0 { src.extend((0..extra).map(|i| (i % 13) as u8)); } else { for b in src.iter_mut().step_by(4096) { *b ^= 0x55; } }
+            let (sp, dp) = (f("lim-src"), f("lim-dst"));
+            if std::fs::write(&sp, &src).is_err() || std::fs::write(&dp, &basis).is_err() { return; }
+            let script = format!("trap '' XFSZ; ulimit -f {limit_kib}; exec \"$0\" sync \"$1\" \"$2\"");
+            let st = std::process::Command::new("bash").args(["-c", &script, &self.bin.to_string_lossy(), &sp, &dp]).env("RUST_LOG", "off")
+                .stdout(std::process::Stdio::null()).stderr(std::process::Stdio::null()).status();
+            let code = st.ok().and_then(|s| s.code());
+            let after = std::fs::read(&dp).unwrap_or_default();
+            w.count("cli-sync-under-write-limit");
+            let fits = src.len() <= limit_kib as usize * 1024;
+            let ok = (code == Some(0) && after == src) || (code != Some(0) && code.is_some() && after == basis && !fits) || (code != Some(0) && code.is_some() && after == basis);
+            if !ok {
+                let l = w.case("synclimit -", "LIMIT", true);
+                w.fail(l, "cli-sync-write-limit", &format!("copia sync of a {}-byte source over a {}-byte destination with a {limit_kib} KiB file-size limit: exit {code:?}, destination holds {} bytes that are {}", src.len(), basis.len(), after.len(), if after == src { "the source" } else if after == basis { "the old file" } else { "neither the source nor the old file" }));
+            }
+            let _ = std::fs::remove_file(&sp); let _ = std::fs::remove_file(&dp);
+            let _ = std::fs::remove_file(self.dir.join("lim-dst.copia.tmp"));
+        }
+    }
+}
+
 impl Drop for CliCtx {
     fn drop(&mut self) {
         let _ = std::fs::remove_dir_all(&self.dir);
@@ -648,6 +680,9 @@ Model queries: `sig` and `delta` (exact op list, literal data compared by length
     let cli = CliCtx::new();
     if cli.is_none() {
         w.notes.push("COPIA_BIN not set: CLI chain not exercised in this run".into());
+    }
+    if let (Some(c), true) = (cli.as_ref(), prop == "C01") {
+        c.sync_under_write_limit(w);
     }
     let mut rng = Rng::new(seed ^ 0xC01);
     for p in corpus() {
@@ -1033,7 +1068,9 @@ query = `patch` with full ops; answer = verdict + length and FNV hash of the byt
                 let f = |n: &str| c.dir.join(n).to_string_lossy().into_owned();
                 std::fs::write(f("b"), &basis2).ok();
                 std::fs::write(f("d"), bincode::serialize(&d).expect("ser")).ok();
-                let _ = std::fs::remove_file(f("o"));
+                // the output path may already exist and be LONGER than what this patch writes (a re-run into the same name, a scratch file):
+                // success still means the file IS the patched bytes (seed C05-O: `File::create` became `OpenOptions` without `truncate`)
+                if i % 2 == 0 { let _ = std::fs::remove_file(f("o")); } else { std::fs::write(f("o"), vec![0xEEu8; 600_000]).ok(); }
                 let (code, err) = c.run(&["patch", &f("b"), &f("d"), "-o", &f("o")]);
                 w.count("cli-patch");
                 match code {
